@@ -3,6 +3,7 @@ package main
 // Group pktz: C07 (sequencer) and C06 (packetizer).  Token formats: lean/Driver/Kinds/Pktz.lean.
 
 import (
+	"sort"
 	"strings"
 	"sync"
 	"sync/atomic"
@@ -224,6 +225,186 @@ func genC07Hist(x *Ctx) {
 				}
 				return c.R.Range(10000, 100000)
 			}, nearWrap, "large")
+	}
+}
+
+// ---------------------------------------------------------------------------------------------
+// C07 — self-test of the linearizability checker on synthesized histories.
+// c07.synth: histories that ARE linearizable by construction (a sequential run whose calls are
+// given random, sometimes enormous, overlapping real-time intervals around their linearization
+// points) must be accepted: this guards against false alarms of the greedy search, in particular
+// with calls that stay in flight while the 16-bit value goes all the way round.
+// c07.synthbad: minimal corruptions of such histories must be rejected.
+
+type synthCall struct {
+	op            byte
+	res           uint64
+	lin, from, to int64 // linearization point and real-time interval (before ranking)
+	before, after uint64
+}
+
+func synthHistory(r *Rand, start uint16, n int, rocDen int, longCalls int) []synthCall {
+	s := rtp.NewFixedSequencer(start)
+	calls := make([]synthCall, n)
+	for k := range calls {
+		c := &calls[k]
+		c.lin = int64(k+1) * 16
+		if r.Chance(1, rocDen) {
+			c.op, c.res = 'r', s.RollOverCount()
+		} else {
+			c.op, c.res = 'n', uint64(s.NextSequenceNumber())
+		}
+		spread := func() int64 {
+			switch r.Intn(10) {
+			case 0:
+				return int64(1 + r.Intn(2000))
+			case 1:
+				return int64(1 + r.Intn(200))
+			default:
+				return int64(1 + r.Intn(40))
+			}
+		}
+		c.from, c.to = c.lin-spread(), c.lin+spread()
+	}
+	// a few calls that stay in flight for (almost) the whole history
+	for i := 0; i < longCalls && n > 0; i++ {
+		c := &calls[r.Intn(n)]
+		if r.Bool() {
+			c.from = -int64(r.Intn(1000)) - 1
+		}
+		if r.Bool() {
+			c.to = int64(n+1)*16 + int64(r.Intn(1000)) + 1
+		}
+	}
+	// tickets: ranks of the 2n interval ends
+	type ev struct {
+		t     int64
+		idx   int
+		after bool
+	}
+	evs := make([]ev, 0, 2*n)
+	for k := range calls {
+		evs = append(evs, ev{calls[k].from, k, false}, ev{calls[k].to, k, true})
+	}
+	tie := r.U64()
+	sort.Slice(evs, func(a, b int) bool {
+		if evs[a].t != evs[b].t {
+			return evs[a].t < evs[b].t
+		}
+		return mix(uint64(evs[a].idx)*2+b2u(evs[a].after)^tie) < mix(uint64(evs[b].idx)*2+b2u(evs[b].after)^tie)
+	})
+	for rank, e := range evs {
+		if e.after {
+			calls[e.idx].after = uint64(rank + 1)
+		} else {
+			calls[e.idx].before = uint64(rank + 1)
+		}
+	}
+	return calls
+}
+
+func b2u(b bool) uint64 {
+	if b {
+		return 1
+	}
+	return 0
+}
+
+func writeSynth(c *Case, start int, calls []synthCall) {
+	c.I.Nat(start).Nat(0)
+	perm := make([]int, len(calls))
+	for i := range perm {
+		perm[i] = i
+	}
+	for i := len(perm) - 1; i > 0; i-- {
+		j := c.R.Intn(i + 1)
+		perm[i], perm[j] = perm[j], perm[i]
+	}
+	c.O.Nat(len(calls))
+	for _, k := range perm {
+		q := calls[k]
+		c.O.Nat(k % 16).Tok(string(rune(q.op))).U64(q.before).U64(q.after).U64(q.res)
+	}
+}
+
+func genC07Synth(x *Ctx) {
+	gen := func(c *Case) (int, []synthCall) {
+		start := c.R.Pick(0, 65535, 65535-c.R.Intn(3000), c.R.Intn(65536))
+		n := c.R.Pick(c.R.Range(1, 50), c.R.Range(50, 3000), c.R.Range(3000, 40000))
+		if c.R.Chance(1, 25) {
+			n = c.R.Range(66000, 140000) // values repeat; with long calls equal values overlap in time
+			c.Tag("values-repeat")
+		}
+		return start, synthHistory(c.R, uint16(start), n, c.R.Pick(3, 10, 100), c.R.Intn(6))
+	}
+	for i, n := 0, x.N(200, 20000); i < n; i++ {
+		x.Case(func(c *Case) {
+			start, calls := gen(c)
+			writeSynth(c, start, calls)
+		})
+	}
+}
+
+func genC07SynthBad(x *Ctx) {
+	for i, n := 0, x.N(200, 20000); i < n; i++ {
+		x.Case(func(c *Case) {
+			start := c.R.Pick(0, 65535, 65535-c.R.Intn(3000), c.R.Intn(65536))
+			n := c.R.Pick(c.R.Range(2, 50), c.R.Range(2, 50), c.R.Range(50, 3000), c.R.Range(3000, 30000))
+			calls := synthHistory(c.R, uint16(start), n, c.R.Pick(3, 10), c.R.Intn(4))
+			done := false
+			switch c.R.Intn(3) {
+			case 0: // one value issued twice / one roll-over count off by one
+				k := c.R.Intn(n)
+				if calls[k].op == 'n' {
+					calls[k].res = (calls[k].res + 1 + uint64(c.R.Intn(5))) % 65536
+				} else {
+					calls[k].res += 3 // at most one wrap happens in a history this short
+				}
+				done = true
+				c.Tag("wrong-result")
+			case 1: // two real-time ordered NextSequenceNumber calls exchange their results
+				for try := 0; try < 200 && !done; try++ {
+					a, b := c.R.Intn(n), c.R.Intn(n)
+					if calls[a].op == 'n' && calls[b].op == 'n' && calls[a].after < calls[b].before && calls[a].res != calls[b].res {
+						calls[a].res, calls[b].res = calls[b].res, calls[a].res
+						done = true
+					}
+				}
+				c.Tag("swapped")
+			default: // a call is moved entirely before an earlier-linearized, different-valued call
+				for try := 0; try < 200 && !done; try++ {
+					a, b := c.R.Intn(n), c.R.Intn(n)
+					if a < b && calls[a].op == 'n' && calls[b].op == 'n' && calls[a].after > 1 && calls[b].res != calls[a].res {
+						// make b return before a is invoked: shrink b's interval below a's start
+						if calls[a].before >= 3 {
+							nb, na := calls[a].before-2, calls[a].before-1
+							free := true
+							for k := range calls {
+								if calls[k].before == nb || calls[k].after == nb || calls[k].before == na || calls[k].after == na {
+									free = false
+								}
+							}
+							_ = free
+							// tickets need not be dense or unique for the check; use half-open trick: scale all by 4
+							for k := range calls {
+								calls[k].before *= 4
+								calls[k].after *= 4
+							}
+							calls[b].before = calls[a].before - 3
+							calls[b].after = calls[a].before - 2
+							done = true
+						}
+					}
+				}
+				c.Tag("reordered")
+			}
+			if !done { // fall back to a wrong result
+				k := c.R.Intn(n)
+				calls[k].res += 70000
+				c.Tag("fallback")
+			}
+			writeSynth(c, start, calls)
+		})
 	}
 }
 
@@ -524,4 +705,6 @@ func init() {
 	register("c07.run", "C07", genC07Run)
 	register("c07.hist", "C07", genC07Hist)
 	register("c07.facts", "C07", genC07Facts)
+	register("c07.synth", "C07", genC07Synth)
+	register("c07.synthbad", "C07", genC07SynthBad)
 }
